@@ -12,15 +12,15 @@ P = {
          'must-pass-through on CFGs, sibling signature-accessor cross-check',
          'eager binding on every construction path (R01.a); unresolved => NameError (R01.b); exact required/provided/optional '
          'set arithmetic (R01.c); per-phase availability sets (R01.d); all consumers of a signature enumerate the same parameters, '
-         'parameter-kind exhaustiveness (R01.e); level alignment of chain_argspec and generated code (R01.f)',
+         'parameter-kind exhaustiveness (R01.e); level alignment of chain_argspec and generated code, each generated level filters its kwargs before recursing (R01.f)',
          'that every accepted configuration serves every request (depends on CPython introspection of arbitrary callables)'),
  'C02': ('template analysis of the generated chain code, layer-order abstract domain for dict merges, dataflow',
          'generated calls are keyword-only name=name (R02.a); only declared names are passed (R02.b); precedence of '
-         'defaults < sources and of resource/built-in/URL layers (R02.c); values are moved between dicts, never copied (R02.d)',
+         'defaults < sources and of resource/built-in/URL layers (R02.c); values are moved between dicts, never copied; the per-route parameter dict and match_path result are fresh per route/request, no memo (R02.d)',
          'values handed to next() by user middlewares; URL conversion values'),
  'C03': ('template analysis of generated code (hole-filled and parsed as AST), sequence-order domain, role dataflow',
          'each generated level is a pure tail call with next bound to the inner def (R03.a); index/indent follow level (R03.b); '
-         'process_request calls endpoint once, render only for non-Responses (R03.c); middleware list order and merge order (R03.d)',
+         'process_request calls endpoint once, render only for non-Responses (R03.c); middleware list order and merge order, middleware equality on exact type (R03.d)',
          'behaviour of user middlewares; Python exception unwinding itself'),
  'C04': ('exhaustiveness / writer-reader table agreement over folded constants, CFG dominance',
          'conflict map folds every provides attribute and every source (R04.a); injected built-in names are all reserved (R04.b); '
@@ -29,7 +29,7 @@ P = {
  'C05': ('regex-AST queries (re._parser) on folded pattern constants, table agreement, CFG rules on the compiler',
          'type tables pair converter and pattern, patterns cannot consume "/" or match empty (R05.a); operator tables agree with '
          'regex quantifiers (R05.b); five InvalidPattern rejections (R05.c); anchoring, separators, no-raise matching (R05.d); '
-         'converter shapes for optional/multi (R05.e)',
+         'converter shapes for optional/multi (R05.e); the instantiated segment template is language-equal (NFA product) to (SEP TYPE)QUANT for all type x operator x mode combinations (R05.f); BoundRoute always recompiles from the bound pattern',
          'the pattern x path matching semantics as a whole (language equality of a run-time built regex), conversion values'),
  'C06': ('CFG path rules (typestate of the dispatch loop), who-may-mutate effect analysis, provenance dataflow',
          'routes list is only appended/inserted in order (R06.a); loop typestate: mismatch => continue, method mismatch records '
@@ -38,11 +38,11 @@ P = {
          'which pattern matches (C05); full response content'),
  'C07': ('CFG dominance of the redirect call, taint analysis path->Location, kwarg-name plumbing agreement',
          'redirect only under matched path+method, branch route, non-canonical path, redirect mode (R07.a); Location path is '
-         'URL-quoted, query passed through (R07.b); slash-mode inheritance plumbing (R07.c)',
+         'URL-quoted, query passed through (R07.b); slash-mode inheritance plumbing (R07.c); shape of normalize_path: empty segments dropped, one leading slash, trailing slash iff branch (R07.d)',
          'idempotence of normalize_path and one-hop as value statements; behaviour of werkzeug.redirect'),
  'C08': ('interprocedural must-catch over the call graph, CFG rules, effect analysis',
          'user code runs under an Exception handler on every path from __call__ (R08.a); non-Response results are converted '
-         'inside the same region (R08.b); re-raise only on reraise_uncaught (R08.c); no shared store on the request path (R08.d)',
+         'inside the same region (R08.b); re-raise only on reraise_uncaught (R08.c); no shared store on the request path (R08.d); error serialisers never use error text as a format template (R08.e); URL converters run under a handler mapping failure to no-match (R08.f)',
          'exceptions from primitive operations outside the protected region; completeness of werkzeug responses'),
  'C09': ('status table vs http.HTTPStatus, table exhaustiveness, taint analysis to HTML/XML sinks, Dust template escaping analysis',
          'status codes and class hierarchy (R09.a); format table exhaustive and body/Content-Type from one pair (R09.b); every '
@@ -61,27 +61,27 @@ P = {
          'ids come from one never-rebound itertools.count (R12.c); built-in middleware per-request self-writes inventory (R12.d)',
          'interleavings inside werkzeug/user code; memory-model questions'),
  'C13': ('CFG exactly-one-delegate rule, sequence-order domain for wrapper order, open/hand-over pairing',
-         'every path of _dispatch_wsgi delegates once with the untouched (environ, start_response) (R13.a); wrappers applied in '
-         'reversed order, error-handler wrapper innermost (R13.b); opened file is handed to the response (R13.c)',
+         'every path of _dispatch_wsgi delegates once with the untouched (environ, start_response), environ is not mutated (R13.a); wrappers applied in '
+         'reversed order, error-handler wrapper innermost (R13.b); opened file is handed to the response and the body is not replaced (R13.c)',
          'status line/header validity, close() semantics, byte-ness of bodies (inside werkzeug)'),
  'C14': ('sanitise-then-use dataflow on find_file, must-catch for filesystem primitives, CFG must-assign',
          'the joined value is the normalised, root-checked one (R14.a); every failure raises non-breaking 403/404 (R14.b); every '
          'filesystem call on the serving path is under an OSError handler (R14.c); 304 and success headers (R14.d); route shape (R14.e)',
          'byte equality of bodies, MIME guessing, date formatting'),
  'C15': ('attribute-protocol typestate: attributes touched on next() results vs attributes every flowing class defines',
-         'every attribute used on a next() result is defined by BaseResponse or guarded (R15.a); pass-through by default (R15.b); '
+         'every attribute used on a next() result is defined by BaseResponse or guarded (R15.a); pass-through by default, no request-body reader is called by a pass-through middleware (R15.b); '
          'handlers around next() re-raise (R15.c); gzip bookkeeping (R15.d)',
          'losslessness of compression, equality of decoded bodies'),
  'C16': ('interprocedural must-catch across clastic and the pinned secure_cookie source, CFG dominance (MAC before use)',
          'malformed cookies cannot fail the request: uncovered decoding primitives of the dependency are under a clastic handler '
-         '(R16.a); unquote is total (R16.b); MAC comparison dominates unquote/expiry (R16.c); key plumbing and save (R16.d)',
+         '(R16.a); unquote is total and quote/unquote agree on serializer and charset (R16.b); MAC comparison dominates unquote/expiry (R16.c); key plumbing and save (R16.d)',
          'cryptographic strength, JSON round-trip fidelity, clock behaviour around expiry'),
  'C17': ('symtable scope resolution, light bytes/str/int type flow for constant-false tests, CFG label-follows-test rules',
          'every name on the render paths resolves (R17.a); no type-confused classification tests, feasible labels (R17.b); '
          'classification order and label-follows-test (R17.c); dev-mode fallback (R17.d); format tables agree (R17.e)',
          'JSON validity / round trip, HTML table shapes, streaming'),
  'C18': ('taint analysis of resource values in meta.py, must-catch for peripheral sections, Dust template escaping analysis',
-         'resource values are only read on the non-secret branch (R18.a); middleware info never reads key/secret attributes (R18.b); '
+         'resource values are only read on the non-secret branch, the tested key is the intact key, defaults are exported by name (R18.a); middleware info never reads key/secret attributes (R18.b); '
          'sections fail soft (R18.c); meta templates auto-escape (R18.d)',
          '200 for arbitrary host applications beyond fail-soft sections; secrets inside reprs of non-secret-named resources'),
  'C19': ('CFG exactly-once rule (finally), ordering rule, difference-constraint entailment for bounded stores',
@@ -90,7 +90,7 @@ P = {
          'sampling statistics; totals per status over histories'),
  'C20': ('symtable scope resolution, must-catch around the traceback parser, Dust template escaping analysis',
          'every name in flaw.py resolves (R20.a); parsing can never prevent the page, both routes share endpoint/template, resource '
-         'names = endpoint parameters (R20.b); every reference of the page template is auto-escaped (R20.c)',
+         'names = endpoint parameters, caller list not truncated, failsafe static app non-breaking (R20.b); every reference of the page template is auto-escaped (R20.c)',
          '"200 for every text" over non-text inputs (ashes on bytes/None); traceback grammar coverage'),
 }
 
